@@ -582,9 +582,63 @@ func ruleTableNanInf(p *Prog, r *Report) {
 			}
 		})
 	})
+	// the numeric attempts may live in an unexported helper that receives the input: what is excluded where the helper is
+	// called is excluded for the ParseFloat inside it
+	for _, ch := range p.castHelpers(fn) {
+		eachInstr(ch.h, func(b *ssa.BasicBlock, i2 ssa.Instruction) {
+			c, ok := i2.(*ssa.Call)
+			if !ok || !isCallTo(&c.Call, "strconv.ParseFloat") {
+				return
+			}
+			n++
+			construct := "float result returned only for finite numbers"
+			if c.Call.Args[0] != ssa.Value(ch.prm) {
+				r.Unknown(rule, p.Name(ch.h), construct, p.Pos(c.Pos()), "ParseFloat is not applied to the helper's input parameter")
+				return
+			}
+			var missing []string
+			for _, sp := range nanInfSpellings {
+				if !in[ch.site.Block()][sp] {
+					missing = append(missing, sp)
+				}
+			}
+			if len(missing) == 0 {
+				r.OK(rule, p.Name(ch.h), construct, p.Pos(c.Pos()), "the helper is called (at "+p.Pos(ch.site.Pos())+") only where the case-folded input was compared unequal to all 7 spellings strconv.ParseFloat accepts, or castNanInf is on")
+			} else {
+				r.Bad(rule, p.Name(ch.h), construct, p.Pos(c.Pos()), "with CastNanInf off these spellings still reach strconv.ParseFloat (through the call at "+p.Pos(ch.site.Pos())+") and are returned as NaN/Inf: "+strings.Join(missing, ", "))
+			}
+		})
+	}
 	if n == 0 {
 		r.Unknown(rule, "mxj.cast", "ParseFloat call", p.Pos(fn.Pos()), "no strconv.ParseFloat call found in the cast function")
 	}
+}
+
+type castHelper struct {
+	h    *ssa.Function
+	prm  *ssa.Parameter
+	site *ssa.Call
+}
+
+// castHelpers: unexported functions cast() hands its input string to.
+func (p *Prog) castHelpers(castFn *ssa.Function) []castHelper {
+	var out []castHelper
+	eachInstr(castFn, func(b *ssa.BasicBlock, in ssa.Instruction) {
+		c, ok := in.(*ssa.Call)
+		if !ok {
+			return
+		}
+		h := staticCallee(&c.Call)
+		if h == nil || h == castFn || !p.InModule(h) || p.Exported(h) || len(h.Blocks) == 0 {
+			return
+		}
+		for i, a := range c.Call.Args {
+			if a == ssa.Value(castFn.Params[0]) && i < len(h.Params) {
+				out = append(out, castHelper{h, h.Params[i], c})
+			}
+		}
+	})
+	return out
 }
 
 // ---- TABLE.keys ----------------------------------------------------------------------------------------------------
